@@ -300,6 +300,53 @@ def run(ctx):
             B.flush(judge)
     B.flush(judge)
 
+    # ---- the same range again after one of its cells has been changed ---------
+    from xlcalculator import Evaluator
+    for _ in range((2000 if thorough else 100) // ctx.nshards + 1):
+        rows, cols = rng.randint(1, 4), rng.randint(1, 3)
+        flat = [v if rng.random() < 0.8 else None
+                for v in numbers(rng, rows * cols)]
+        if not any(isinstance(v, float) for v in flat):
+            flat[0] = 2.5
+        cells = {}
+        for i, v in enumerate(flat):
+            if v is not None:
+                cells[(S, 1 + i % cols, 1 + i // cols)] = v
+        rg = ('rng', None, 1, 1, cols, rows, F4)
+        probes = {f: ('call', f, [rg] if f != 'SUMPRODUCT' else [rg, rg])
+                  for f in AGGS}
+        wb = ref.Workbook(cells)
+        inputs = {f'{ref.col_letters(c)}{r}': v
+                  for (s_, c, r), v in cells.items()}
+        for j, (f, ast) in enumerate(probes.items()):
+            inputs[f'H{j + 1}'] = '=' + ref.render(ast)
+        try:
+            ev = Evaluator(subject.compile_dict(inputs))
+        except Exception as e:  # noqa
+            ctx.fail(f'compiling {inputs} raised {e!r}', {'cells': inputs},
+                     monitor='construction', group='compile')
+            continue
+        for step in range(3):
+            if step:
+                # change one member (also a blank one), keep at least one number
+                i = rng.randrange(rows * cols)
+                key = (S, 1 + i % cols, 1 + i // cols)
+                v = rng.randint(-800, 800) / 8
+                ev.set_cell_value(build_addr(key), v)
+                wb.cells[key] = v
+            for j, (f, ast) in enumerate(probes.items()):
+                got = subject.outcome_of(
+                    lambda: ev.evaluate(f'{S}!H{j + 1}'))
+                try:
+                    want = ('value', ref.to_norm(wb.eval(ast, S)))
+                except ref.Undecided:
+                    continue
+                judge(ast, {'func': f, 'cells': dict(
+                    (build_addr(k), v) for k, v in wb.cells.items()),
+                    'kinds': f'after-{step}-sets', 'two_d': rows > 1 and
+                    cols > 1, 'nt': (f, 'history', step, rows, cols)},
+                    got, want)
+
     # ---- metamorphic relations on the observed values ------------------------
     def num(got):
         return got[1][1] if got[0] == 'value' and got[1][0] == 'num' else None
@@ -349,6 +396,10 @@ def run(ctx):
                                               'values': d,
                                               'cells': obs[0][3]},
                              monitor='metamorphic-order', group='order')
+
+
+def build_addr(key):
+    return f'{key[0]}!{ref.col_letters(key[1])}{key[2]}'
 
 
 def classify(meta, got, want):
